@@ -1266,3 +1266,101 @@ mut('c20-loop-closed-instead-of-running', 'C20', ['C20.5'], H,
     "            if sem_key not in GLOBAL_RETRY_SEMAPHORES or GLOBAL_RETRY_SEMAPHORE_LOOPS.get(sem_key) is not current_loop:",
     "            if sem_key not in GLOBAL_RETRY_SEMAPHORES or GLOBAL_RETRY_SEMAPHORE_LOOPS.get(sem_key) is None or GLOBAL_RETRY_SEMAPHORE_LOOPS.get(sem_key).is_closed():",
     'the cached semaphore is kept while its loop is merely not closed')
+
+# ================================================================================================ round-4 additions (feature-shaped)
+_NEW_CANCEL_API = '''
+    def cancel_queued(self, event: 'BaseEvent[Any]') -> None:
+        """Withdraw an event: give it up and mark it complete."""
+        event.event_mark_complete_if_all_handlers_completed()
+
+    def _start(self) -> None:'''
+mut('c03-mark-complete-from-new-api', 'C03', ['C03.1'], S, "\n    def _start(self) -> None:", _NEW_CANCEL_API,
+    'a new public method evaluates completion of an event that was never processed')
+mut('c08-mark-complete-from-new-api', 'C08', ['C08.4'], S, "\n    def _start(self) -> None:", _NEW_CANCEL_API, 'echo')
+_NEW_FORWARD_API = '''
+    def forward_to(self, target: 'EventBus') -> None:
+        """Forward everything to another bus."""
+
+        def forward_event(event: 'BaseEvent[Any]') -> Any:
+            return target.dispatch(event)
+
+        self.on('*', forward_event)
+
+    def _start(self) -> None:'''
+mut('c07-library-forwarding-closure', 'C07', ['C07.9'], S, "\n    def _start(self) -> None:", _NEW_FORWARD_API,
+    'the library registers a forwarding closure the recursion guard does not recognise')
+_NEW_LATER_API = '''
+    def dispatch_later(self, event: 'BaseEvent[Any]', delay: float) -> None:
+        """Dispatch after a delay."""
+        asyncio.get_running_loop().call_later(delay, self.dispatch, event)
+
+    def _start(self) -> None:'''
+mut('c06-call-later-dispatch', 'C06', ['C06.3'], S, "\n    def _start(self) -> None:", _NEW_LATER_API,
+    'a scheduled callback that dispatches inherits the scheduling handler context')
+mut('c09-call-later-dispatch', 'C09', ['C09.12'], S, "\n    def _start(self) -> None:", _NEW_LATER_API, 'echo')
+mut('c10-record-timeout-overwritten', 'C10', ['C10.1'], M,
+    "        if 'result' in kwargs:", "        if 'timeout' in kwargs:\n            self.timeout = kwargs['timeout']\n        if 'result' in kwargs:",
+    'update() can replace the timeout a handler runs under')
+mut('c15-runloop-extra-wait', 'C15', ['C15.6'], S,
+    "                    _processed_event = await self.step()", "                    await asyncio.Event().wait() if getattr(self, '_paused', False) else None\n                    _processed_event = await self.step()",
+    'the processing loop can wait without bound before taking the next event')
+mut('c05-runloop-extra-wait', 'C05', ['C05.5'], S,
+    "                    _processed_event = await self.step()", "                    await asyncio.Event().wait() if getattr(self, '_paused', False) else None\n                    _processed_event = await self.step()",
+    'echo')
+_NEW_IMMEDIATE_API = '''
+    async def dispatch_immediate(self, event: 'BaseEvent[Any]') -> 'BaseEvent[Any]':
+        """Process an event right away, without queueing."""
+        self.event_history[event.event_id] = event
+        await self.process_event(event)
+        return event
+
+    def _start(self) -> None:'''
+mut('c10-new-processing-entry-point', 'C10', ['C10.9'], S, "\n    def _start(self) -> None:", _NEW_IMMEDIATE_API,
+    'a new entry point processes events outside the step / inline-loop chain')
+mut('c04-new-processing-entry-point', 'C04', ['C04.9'], S, "\n    def _start(self) -> None:", _NEW_IMMEDIATE_API, 'echo')
+_NEW_LOCK_OPTION = "            async with (self._own_lock if getattr(self, '_own_lock', None) else _get_global_lock()):"
+mut('c02-per-bus-lock-option', 'C02', ['C02.7'], S, "            async with _get_global_lock():", _NEW_LOCK_OPTION,
+    'an option lets a bus process events under a lock of its own')
+mut('c20-skip-acquire-on-inherited-flag', 'C20', ['C20.7'], H,
+    "            if semaphore_limit is not None:\n                # Get semaphore key and create/retrieve semaphore",
+    "            if semaphore_limit is not None and not _HELD.get(False):\n                # Get semaphore key and create/retrieve semaphore",
+    'the acquisition is skipped on the strength of inherited per-task state')
+mut('c16-slot-before-handler', 'C16', ['C16.6'], S,
+    "        handler_task = None\n        try:\n            if inspect.iscoroutinefunction(handler):",
+    "        handler_task = None\n        await asyncio.sleep(0)  # wait for a slot\n        try:\n            if inspect.iscoroutinefunction(handler):",
+    'a handler task suspends before it starts its handler')
+mut('c17-wal-rewritten-elsewhere', 'C17', ['C17.8'], S, "\n    def _start(self) -> None:",
+    "\n    def trim_wal(self, keep_last: int = 1000) -> None:\n        \"\"\"Keep only the newest lines of the WAL.\"\"\"\n        if self.wal_path:\n            lines = self.wal_path.read_text().splitlines()[-keep_last:]\n            self.wal_path.write_text('\\n'.join(lines) + '\\n')\n\n    def _start(self) -> None:",
+    'a second writer rewrites the WAL file')
+mut('c17-wal-not-append-mode', 'C17', ['C17.8'], S, "anyio.open_file(self.wal_path, 'a', encoding='utf-8')", "anyio.open_file(self.wal_path, 'w', encoding='utf-8')",
+    'the WAL is truncated on every write')
+mut('c13-bound-changed-later', 'C13', ['C13.7'], S, "\n    def _start(self) -> None:",
+    "\n    def set_history_limit(self, n: int | None) -> None:\n        \"\"\"Change the history bound.\"\"\"\n        self.max_history_size = n\n\n    def _start(self) -> None:",
+    'the history bound is changed after construction')
+mut('c12-validate-with-strict-false', 'C12', ['C12.1'], M, "ResultType.validate_python(result)", "ResultType.validate_python(result, strict=False)",
+    'an explicit validation mode overrides the declared type')
+mut('c01-on-skips-duplicate-names', 'C01', ['C01.7'], S,
+    "        if new_handler_name in existing_registered_handlers:\n            warnings.warn(", "        if new_handler_name in existing_registered_handlers:\n            if getattr(self, 'skip_duplicates', False):\n                return\n            warnings.warn(",
+    'on() can return without registering the handler')
+mut('c18-on-skips-duplicate-names', 'C18', ['C18.6'], S,
+    "        if new_handler_name in existing_registered_handlers:\n            warnings.warn(", "        if new_handler_name in existing_registered_handlers:\n            if getattr(self, 'skip_duplicates', False):\n                return\n            warnings.warn(",
+    'echo')
+mut('c01-serial-loop-skips-after-answer', 'C01', ['C01.4'], S,
+    "                try:\n                    await self.execute_handler(event, handler, timeout=timeout)",
+    "                if getattr(event, '_answered', False):\n                    continue\n                try:\n                    await self.execute_handler(event, handler, timeout=timeout)",
+    'an iteration of the serial handler loop can skip its handler')
+mut('c11-serial-loop-skips-after-answer', 'C11', ['C11.1'], S,
+    "                try:\n                    await self.execute_handler(event, handler, timeout=timeout)",
+    "                if getattr(event, '_answered', False):\n                    continue\n                try:\n                    await self.execute_handler(event, handler, timeout=timeout)",
+    'echo')
+_NEW_BULK_API = '''
+    def dispatch_many(self, events: list['BaseEvent[Any]']) -> None:
+        """Dispatch a batch."""
+        for event in events:
+            self.event_history[event.event_id] = event
+        for event in events:
+            self.event_queue.put_nowait(event)  # type: ignore[union-attr]
+
+    def _start(self) -> None:'''
+mut('c14-bulk-entry-point', 'C14', ['C14.6'], S, "\n    def _start(self) -> None:", _NEW_BULK_API, 'events enter the history through a bulk entry point before they are enqueued')
+mut('c15-bulk-entry-point', 'C15', ['C15.8'], S, "\n    def _start(self) -> None:", _NEW_BULK_API, 'echo')
